@@ -3483,6 +3483,9 @@ fn validate_extension_declarations(
     let mut claim_space_by_sector = BTreeMap::<SectorNumber, (u64, u64)>::new();
     // A claim's space must be counted once: a repeated claim ID could stand in for other claims.
     let mut declared_claims = BTreeSet::<ext::verifreg::ClaimID>::new();
+    // A sector's claims are checked against the new expiration of the declaration that lists them:
+    // a second declaration naming the sector could extend it past a maintained claim's term.
+    let mut declared_sectors = BitField::new();
 
     for decl in &extensions {
         let policy = rt.policy();
@@ -3494,6 +3497,18 @@ fn validate_extension_declarations(
                 policy.wpost_period_deadlines
             ));
         }
+
+        let mut decl_sectors = decl.sectors.clone();
+        for sc in &decl.sectors_with_claims {
+            decl_sectors.set(sc.sector_number);
+        }
+        if declared_sectors.contains_any(&decl_sectors) {
+            return Err(actor_error!(
+                illegal_argument,
+                "sector named by more than one extension declaration"
+            ));
+        }
+        declared_sectors |= &decl_sectors;
 
         for sc in &decl.sectors_with_claims {
             let mut drop_claims = sc.drop_claims.clone();
